@@ -409,6 +409,44 @@ inline Verdict runForked(const PropFn& fn, Runtime& rt, const std::vector<int64_
   return v;
 }
 
+// Run a piece of a case in a forked child under a CPU-time limit.  Used where the library call may legitimately take
+// very long (e.g. power sets of power sets): a timeout is "inconclusive", never a violation; a crash is a failure.
+struct ChildResult { enum { OK, TIMEOUT, CRASH } status = OK; Verdict verdict; std::string crashInfo; };
+inline ChildResult inChild(const std::function<Verdict()>& fn, int timeoutS) {
+  ChildResult out;
+  int fds[2];
+  if (::pipe(fds) != 0) { out.status = ChildResult::CRASH; out.crashInfo = "pipe failed"; return out; }
+  fflush(stdout); fflush(stderr);
+  const pid_t pid = ::fork();
+  if (pid == 0) {
+    ::close(fds[0]);
+    ::alarm(static_cast<unsigned>(timeoutS));
+    Verdict v;
+    try { v = fn(); } catch (const std::exception& e) { v = fail("escaped-exception", std::string("std::exception escaped: ") + e.what()); } catch (...) { v = fail("escaped-exception", "non-std exception"); }
+    std::string s = std::to_string(static_cast<int>(v.kind)) + "\n" + v.oracle + "\n";
+    for (char ch : v.msg) s += ch == '\n' ? ' ' : ch;
+    size_t off = 0;
+    while (off < s.size()) { auto w = ::write(fds[1], s.data() + off, s.size() - off); if (w <= 0) break; off += static_cast<size_t>(w); }
+    ::close(fds[1]);
+    ::_exit(0);
+  }
+  ::close(fds[1]);
+  std::string buf; char tmp[4096]; ssize_t r;
+  while ((r = ::read(fds[0], tmp, sizeof tmp)) > 0) buf.append(tmp, static_cast<size_t>(r));
+  ::close(fds[0]);
+  int status = 0; ::waitpid(pid, &status, 0);
+  if (WIFSIGNALED(status) && WTERMSIG(status) == SIGALRM) { out.status = ChildResult::TIMEOUT; return out; }
+  if (!(WIFEXITED(status) && WEXITSTATUS(status) == 0) || buf.empty()) {
+    out.status = ChildResult::CRASH;
+    out.crashInfo = WIFSIGNALED(status) ? "killed by signal " + std::to_string(WTERMSIG(status)) : "abnormal exit " + std::to_string(WEXITSTATUS(status));
+    return out;
+  }
+  std::istringstream is(buf); std::string l1, l2, l3;
+  std::getline(is, l1); std::getline(is, l2); std::getline(is, l3);
+  out.verdict.kind = static_cast<Verdict::Kind>(atoi(l1.c_str())); out.verdict.oracle = l2; out.verdict.msg = l3;
+  return out;
+}
+
 // greedy tape shrinker (fork per candidate): keeps a candidate if it still fails with the same oracle id
 inline CaseFile shrinkTape(const Prop& p, Runtime& rt, CaseFile c, int budgetCandidates = 4000, double budgetS = 120.0) {
   const auto t0 = std::chrono::steady_clock::now();
